@@ -40,7 +40,12 @@ impl NodeRecordStore {
         VerifStoreView {
             records: self.records.iter().map(|(k, (_, t))| (k.clone(), t.clone())).collect(),
             records_by_distance: self.records_by_distance.iter().map(|(d, k)| (*d, k.clone())).collect(),
-            cache_keys: self.records_cache.records_cache.keys().cloned().collect(),
+            cache_keys: {
+                // oldest first, the order in which the FIFO cache would drop them
+                let mut v: Vec<_> = self.records_cache.records_cache.iter().map(|(k, (_, t))| (*t, k.clone())).collect();
+                v.sort_by_key(|e| e.0);
+                v.into_iter().map(|(_, k)| k).collect()
+            },
             farthest: self.farthest_record.as_ref().map(|(k, _)| k.clone()),
             responsible_distance_range: self.responsible_distance_range,
             received_payment_count: self.received_payment_count,
